@@ -99,3 +99,28 @@ def first_diff(a: list, b: list):
     if len(a) != len(b):
         return min(len(a), len(b)), (a[len(b)] if len(a) > len(b) else None), (b[len(a)] if len(b) > len(a) else None)
     return None
+
+
+_KIND = {"heading_open": "H", "paragraph_open": "P", "bullet_list_open": "LIST", "ordered_list_open": "LIST", "list_item_open": "ITEM",
+         "blockquote_open": "QUOTE", "fence": "CODEBLOCK", "code_block": "CODEBLOCK", "hr": "HR", "table_open": "TABLE", "html_block": "HTMLBLOCK"}
+
+
+def skeleton(text: str) -> list[str]:
+    """Pre-order sequence of block kinds as markdown-it reads the text."""
+    return [_KIND[t.type] for t in _md.parse(text) if t.type in _KIND]
+
+
+def skeleton_of_tree(node, out=None) -> list[str]:
+    """The same sequence from a normalised tree of flowmark's reader (vf.astn); link definitions leave no token in markdown-it."""
+    out = out if out is not None else []
+    if isinstance(node, tuple) and node and isinstance(node[0], str):
+        k = node[0]
+        if k in ("H", "P", "LIST", "ITEM", "QUOTE", "CODEBLOCK", "HR", "TABLE", "HTMLBLOCK"):
+            out.append(k)
+        if k in ("DOC", "LIST", "ITEM", "QUOTE"):
+            for x in node[1:]:
+                skeleton_of_tree(x, out)
+    elif isinstance(node, tuple):
+        for x in node:
+            skeleton_of_tree(x, out)
+    return out
